@@ -468,6 +468,24 @@ let register (reg : string -> (string list -> string) -> unit) =
                 | Some v' -> if v <> v' then "BAD-value"
                              else if strict_in && StrLitSpec.decode false q' b' = None then "BAD-strict" else "ok"))))
     | _ -> "ok");
+  (* the literal mergeBinaryExpr builds for l1 + l2 + ... *)
+  reg "jsstrcat" (function [lits] -> hexe (StrCat.merge_strings (Stdlib.List.map hexd (split ',' lits))) | _ -> "BADARGS");
+  (* the statement "the merged and minified literal has the concatenation of the parts' values" evaluated on one case;
+     "ok" also when a part is not a valid literal (nothing is claimed then) *)
+  reg "jsstrcatv" (function [t; lits] ->
+      let ls = Stdlib.List.map hexd (split ',' lits) in
+      let body l = match l with [] -> None | q :: r -> (match Stdlib.List.rev r with q2 :: rb when q2 = q -> Some (q, Stdlib.List.rev rb) | _ -> None) in
+      let vals = Stdlib.List.map (fun l -> match body l with Some (q, b) when q <> z_of_int 96 -> StrLitSpec.decode true q b | _ -> None) ls in
+      if Stdlib.List.exists (fun v -> v = None) vals then "ok" else
+      let want = Stdlib.List.concat (Stdlib.List.map (function Some v -> v | None -> []) vals) in
+      let out = StrLit.minify_string (StrCat.merge_strings ls) (t = "1") in
+      (match body out with
+       | None -> "BAD-output-shape"
+       | Some (q', b') ->
+         (match StrLitSpec.decode (q' <> z_of_int 96) q' b' with
+          | None -> "BAD-output-invalid"
+          | Some v' -> if v' = want then "ok" else "BAD-value"))
+    | _ -> "ok");
   reg "jsstmtr" (function [sx] -> jsstmt_case ~readback:true "1" sx | _ -> "BADARGS");
   reg "jsstmtlx" (function [sx] -> jsstmt_case ~lexback:true "1" sx | _ -> "BADARGS");
   reg "jsstmtpb" (function [sx] -> jsstmt_case ~bytes_out:true "1" sx | _ -> "BADARGS");
